@@ -551,6 +551,16 @@ impl endpoint::Connection for ListenerConnection {
                 relay.send(sframe).await?;
             }
             None => {
+                // A begin on a channel that already carries a session is a protocol
+                // violation: it must not take the running session's channel over
+                if self
+                    .connection
+                    .session_by_incoming_channel
+                    .contains_key(&channel)
+                {
+                    return Err(Self::Error::IllegalState);
+                }
+
                 // Remotely initiated session.
                 //
                 // Eagerly allocate the session relay and register it for the
